@@ -125,6 +125,7 @@ class Mod:
         self.pkg = pkg
         self.defs = []      # list of dict
         self.all = None     # None | list[str]
+        self.all_from = []  # [{"local": name the other module is bound to here, "style": star | plus | aug | extend}]: __all__ composed from <local>.__all__
         self.subs = []      # list[Mod]
 
 
@@ -168,8 +169,21 @@ def render_defs(defs, ind=""):
 
 def render_mod(m):
     lines = render_defs(m.defs)
-    if m.all is not None:
-        lines.append("__all__ = [" + ", ".join(repr(x) for x in m.all) + "]")
+    if m.all is not None or getattr(m, "all_from", None):
+        lit = "[" + ", ".join(repr(x) for x in (m.all or [])) + "]"
+        first, later = lit, []
+        for a in getattr(m, "all_from", None) or []:
+            other = a["local"] + ".__all__"
+            if a["style"] == "star":
+                first = first[:-1] + (", " if first[1:-1].strip() else "") + "*" + other + "]"
+            elif a["style"] == "plus":
+                first = first + " + " + other
+            elif a["style"] == "aug":
+                later.append("__all__ += " + other)
+            else:
+                later.append("__all__.extend(" + other + ")")
+        lines.append("__all__ = " + first)
+        lines.extend(later)
     return "\n".join(lines) + "\n"
 
 
@@ -275,7 +289,7 @@ def gen_def(rng, used, depth, kind=None, private=None, classes=()):
     if kind == "func":
         return {"kind": "func", "name": name, "sig": random_sig(rng), "ret": rng.choice([None, None, "int", "str"])}
     if kind == "attr":
-        return {"kind": "attr", "name": name, "value": rng.choice([None, 1, 2, 3, 3])}
+        return {"kind": "attr", "name": name, "value": rng.choice([None, 1, 2, 3, 3, 0, 1, "(1, 2)", "[0, 1]", "{'a': 1}", "True"])}
     bases = [b for b in classes if rng.random() < 0.6][:2]
     body, bu = [], set()
     for _ in range(rng.randint(0, 3)):
@@ -365,6 +379,69 @@ def gen_hierarchy(rng, mods):
     leaf = mk(pm(0.15), direct, used)
     m.defs.append(leaf)
     return shape
+
+
+def gen_composed_pkg(rng):
+    """An importable package whose facade composes its __all__ from another module's __all__:
+    a private implementation module `pkg/_impl.py` (literal __all__) and a facade that imports the module, imports its names and says
+    `__all__ = ["connect", *_impl.__all__]` / `[...] + _impl.__all__` / `__all__ += _impl.__all__` / `__all__.extend(_impl.__all__)`.
+    Layouts: sub-package facade `pkg/api/__init__.py` (module files are traversed before sub-packages), sibling file listed after the
+    implementation (`api.py`) or before it (`Facade.py`), optionally the root composing the same list too, optionally a second hop."""
+    root = Mod("pkg", True)
+    used = set()
+    for _ in range(rng.randint(0, 2)):
+        root.defs.append(gen_def(rng, used, 1, private=False))
+    impl = Mod(rng.choice(["_impl", "_core"]))
+    iu = set()
+    for _ in range(rng.randint(2, 4)):
+        impl.defs.append(gen_def(rng, iu, 0, private=False))
+    if rng.random() < 0.5:
+        impl.defs.append(gen_def(rng, iu, 1, private=True))
+    names = [d["name"] for d in impl.defs if not d["name"].startswith("_")]
+    impl.all = [n for n in names if rng.random() < 0.85] or names[:1]
+    layout = rng.choice(["subpkg", "subpkg", "sibling-after", "sibling-before"])
+    fac = Mod("api", True) if layout == "subpkg" else Mod("api" if layout == "sibling-after" else "Facade")
+    style = rng.choice(["star", "plus", "aug", "extend"])
+
+    def compose(m, via, via_path):
+        m.defs.append({"kind": "import", "frm": via_path.rpartition(".")[0], "name": via_path.rpartition(".")[2]})
+        for n in impl.all:
+            if n not in {bound(d) for d in m.defs}:
+                m.defs.append({"kind": "import", "frm": via_path, "name": n})
+        m.all_from = [{"local": via, "style": rng.choice(["star", "plus", "aug", "extend"]) if m is not fac else style}]
+    compose(fac, impl.name, f"pkg.{impl.name}")
+    fac.defs.append({"kind": "func", "name": "connect", "sig": random_sig(rng), "ret": None})
+    fac.all = ["connect"]
+    root.subs = [impl, fac]
+    if rng.random() < 0.3:        # the root composes the same list too (the implementation module is then "seen" before the facade)
+        compose(root, impl.name, f"pkg.{impl.name}")
+        root.all = [d["name"] for d in root.defs if d["kind"] != "import"]
+    if rng.random() < 0.3:        # a second hop: pkg/zz.py takes the facade's list
+        hop = Mod("zz")
+        hop.defs.append({"kind": "import", "frm": "pkg", "name": fac.name})
+        for n in impl.all + ["connect"]:
+            hop.defs.append({"kind": "import", "frm": f"pkg.{fac.name}", "name": n})
+        hop.all, hop.all_from = [], [{"local": fac.name, "style": rng.choice(["star", "plus", "aug"])}]
+        root.subs.append(hop)
+    return root
+
+
+COMPOSED_EDITS = ["remove-def", "remove-def", "change-kind", "change-kind", "change-value", "change-value-coarse", "param", "drop-return",
+                  "add-public", "add-optional-kwonly"]
+
+
+def cpython_all(root_dir: Path):
+    """CPython's real `__all__` of every module of `pkg` after import (None: no __all__); None when the package does not import."""
+    code = ("import importlib, json, pkgutil, sys\nimport pkg\nout = {'pkg': getattr(pkg, '__all__', None)}\n"
+            "for m in pkgutil.walk_packages(pkg.__path__, 'pkg.'):\n"
+            "    out[m.name] = getattr(importlib.import_module(m.name), '__all__', None)\n"
+            "print(json.dumps({k: (None if v is None else list(v)) for k, v in out.items()}))\n")
+    env = {k: v for k, v in os.environ.items() if k != "PYTHONPATH"}
+    p = subprocess.run([sys.executable, "-S", "-c", code], cwd=root_dir, capture_output=True, text=True, timeout=60,
+                       env=dict(env, PYTHONPATH=str(root_dir), PYTHONDONTWRITEBYTECODE="1"))
+    if p.returncode != 0:
+        return None
+    return json.loads(p.stdout.strip().splitlines()[-1])
 
 
 def gen_pkg(rng, stream, facade=False):
@@ -630,7 +707,7 @@ def e_class_combo(rng, pkg):
         d["body"].remove(x)
         metas.append({"edit": "remove-" + x["kind"], "class": "incompatible", "path": xp, "expect": "OBJECT_REMOVED", "touched": []})
     elif op == "value":
-        x["value"] = rng.choice([v for v in (None, 1, 2, 3, 7) if v != x["value"]])
+        x["value"] = rng.choice([v for v in (None, 1, 2, 3, 7) if str(v) != str(x["value"])])
         metas.append({"edit": "change-value", "class": "incompatible", "path": xp, "expect": "ATTRIBUTE_CHANGED_VALUE", "touched": []})
     else:
         old = x["kind"]
@@ -664,8 +741,25 @@ def e_change_value(rng, pkg):
     if not t:
         return None
     lst, d, p, mod, mp = t
-    d["value"] = rng.choice([v for v in (None, 1, 2, 3, 7) if v != d["value"]])
+    d["value"] = rng.choice([v for v in (None, 1, 2, 3, 7) if str(v) != str(d["value"])])
     return {"edit": "change-value", "class": "incompatible", "path": p, "expect": "ATTRIBUTE_CHANGED_VALUE", "touched": []}
+
+
+# literals that compare equal under Python's == and yet are different values for a user of the API (type / repr differ):
+# 1 == 1.0 == True, 0 == 0.0 == False, also inside containers
+COARSE = {"0": ["0.0", "False"], "1": ["1.0", "True"], "2": ["2.0"], "3": ["3.0"], "7": ["7.0"], "True": ["1", "1.0"],
+          "(1, 2)": ["(1.0, 2)", "(True, 2)", "(1, 2.0)"], "[0, 1]": ["[False, 1]", "[0.0, 1]", "[0, True]"],
+          "{'a': 1}": ["{'a': True}", "{'a': 1.0}"]}
+
+
+def e_change_value_coarse(rng, pkg):
+    """The value of an attribute becomes a literal that is ==-equal to the old one but of another type: still a changed value."""
+    t = pick_def(rng, pkg, {"attr"}, lambda d: str(d["value"]) in COARSE)
+    if not t:
+        return None
+    lst, d, p, mod, mp = t
+    d["value"] = rng.choice(COARSE[str(d["value"])])
+    return {"edit": "change-value-equal-under-==", "class": "incompatible", "path": p, "expect": "ATTRIBUTE_CHANGED_VALUE", "touched": []}
 
 
 def e_param(rng, pkg):
@@ -821,7 +915,7 @@ def e_override_edit(rng, pkg):
         lst.remove(d)
         return {"edit": "override-remove-" + d["kind"], "class": "incompatible", "path": p, "expect": "OBJECT_REMOVED", "touched": []}
     if op == "value":
-        d["value"] = rng.choice([v for v in (None, 1, 2, 3, 7) if v != d["value"]])
+        d["value"] = rng.choice([v for v in (None, 1, 2, 3, 7) if str(v) != str(d["value"])])
         return {"edit": "override-change-value", "class": "incompatible", "path": p, "expect": "ATTRIBUTE_CHANGED_VALUE", "touched": []}
     if op == "param":
         sig = list(d["sig"])
@@ -840,12 +934,12 @@ EDITS = {
     "add-module": e_add_module, "add-optional-kwonly": e_add_kwonly,
     "remove-def": e_remove_def, "remove-reexport": e_remove_reexport, "remove-module": e_remove_module,
     "change-kind": e_change_kind, "remove-base": e_remove_base, "change-value": e_change_value, "param": e_param,
-    "drop-return": e_drop_return, "kwonly-to-positional": e_kwonly_to_positional,
+    "drop-return": e_drop_return, "kwonly-to-positional": e_kwonly_to_positional, "change-value-coarse": e_change_value_coarse,
     "class-combo": e_class_combo, "change-base": e_change_base, "retarget": e_retarget, "all": e_all, "reorder": e_reorder, "dangle": e_dangle,
 }
 COMPAT = ["add-public", "add-private", "add-module", "add-optional-kwonly"]
 INCOMPAT = ["remove-def", "remove-def", "remove-reexport", "remove-module", "change-kind", "change-kind", "remove-base", "change-value",
-            "param", "param", "drop-return", "kwonly-to-positional"]
+            "param", "param", "drop-return", "kwonly-to-positional", "change-value-coarse"]
 NEUTRAL = ["retarget", "all", "reorder", "dangle", "change-base", "change-base"]
 
 
@@ -1023,15 +1117,16 @@ class RawAbstraction:
         return f"{self.paths[c]}.{n}"
 
 
-def doc_is_public(parent, m):
-    """The decision ladder as documented in the docstring of is_public (+ the documented module exception)."""
+def doc_is_public(parent, m, exports_map=None):
+    """The decision ladder as documented in the docstring of is_public (+ the documented module exception).
+    exports_map (module path -> CPython's real __all__ after import, or None): used instead of Griffe's `exports` where given."""
     if m.public is not None:
         return bool(m.public)
     nm = m.name
     if not m.is_alias and m.kind.value == "module" and not nm.startswith("_"):
         return True
     if parent is not None and (not parent.is_alias) and parent.kind.value == "module":
-        ex = parent.exports
+        ex = exports_map[parent.path] if exports_map is not None and parent.path in exports_map else parent.exports
         if ex is not None:
             return nm in [str(e) for e in ex]
     special = nm.startswith("__") and nm.endswith("__")
@@ -1051,7 +1146,7 @@ def members_of(o):
     return {}
 
 
-def reference_reach(old_root, new_root):
+def reference_reach(old_root, new_root, exports_map=None):
     """Authority: which old objects / (old,new) pairs are reachable from the roots through documented-public members and
     resolvable alias targets.  No seen_paths cut: every route counts.  Returns (old paths, new paths of counterparts)."""
     from _griffe.exceptions import AliasResolutionError, CyclicAliasError
@@ -1087,7 +1182,7 @@ def reference_reach(old_root, new_root):
         else:
             nm_ = members_of(n) if n is not None and not n.is_alias else {}
             for name, m in members_of(o).items():
-                if doc_is_public(o, m):
+                if doc_is_public(o, m, exports_map):
                     todo.append(("head", m, nm_.get(name)))
     pairs = {(k[1], k[2]) for k in seen if k[0] == "members" and k[2] is not None}
     return old_paths, new_paths, pairs
@@ -1134,7 +1229,7 @@ class SpecWorld:
             r = self.resolve(mp, b) if toplevel else None
             fwd = r is not None and self.order.get((mp, b), 10**6) > self.order.get((mp, d["name"]), -1)
             hops = 0
-            while not fwd and r is not None and r[0] == "def" and r[1]["kind"] == "attr" and isinstance(r[1]["value"], str) and hops < 16:
+            while not fwd and r is not None and r[0] == "def" and r[1]["kind"] == "attr" and isinstance(r[1]["value"], str) and r[1]["value"].isidentifier() and r[1]["value"] not in ("True", "False", "None") and hops < 16:
                 # `Base = Class`: the interpreter evaluates the name when the assignment runs, in the module of the assignment
                 amp, aname, target = r[3], r[1]["name"], r[1]["value"]
                 r = self.resolve(amp, target)
@@ -1208,7 +1303,7 @@ def class_view_expectations(wo, wn, po, pn):
         at = f"{kn._spec_path}.{n}"
         if xo["kind"] != xn["kind"]:
             out.append(("kind", "OBJECT_CHANGED_KIND", at) + tag)
-        elif xo["kind"] == "attr" and xo["value"] != xn["value"]:
+        elif xo["kind"] == "attr" and str(xo["value"]) != str(xn["value"]):
             out.append(("value", "ATTRIBUTE_CHANGED_VALUE", at) + tag)
         elif xo["kind"] == "func":
             newn = {q[0] for q in xn["sig"]}
@@ -1317,6 +1412,7 @@ class Case:
         write_tree(d / "old", self.fo)
         write_tree(d / "new", self.fn)
         self.old, self.new = load_pkg(d / "old"), load_pkg(d / "new")
+        self.cpy_all = (cpython_all(d / "old"), cpython_all(d / "new")) if self.stream == "composed-all" else None
         for path, val in self.overrides:
             for t in (self.old, self.new):
                 try:
@@ -1478,7 +1574,27 @@ def evaluate(ctx, c, status, ibs, mstatus, mbs, wf, exitc, ao, an, log, tally):
         tally["unresolvable_survived"] += 1
     if any(n[2] == ["alias", ["cyc"]] for n in ao.nodes + an.nodes):
         tally["cyclic_survived"] += 1
-    reach_old, reach_new, reach_pairs = reference_reach(c.old, c.new)
+    exports_old = None
+    if getattr(c, "cpy_all", None) and not c.overrides:
+        # the public frontier according to CPython: the real __all__ of every module after import
+        for tree, real, side in ((c.old, c.cpy_all[0], "old"), (c.new, c.cpy_all[1], "new")):
+            if real is None:
+                ctx.observe("frontier", "package-does-not-import")
+                continue
+            for mpath, names in real.items():
+                try:
+                    mod = tree.modules_collection.get_member(mpath)
+                except Exception:  # noqa: BLE001
+                    continue
+                ctx.observe("frontier", f"{side} __all__={'none' if names is None else 'composed' if len(names) > 1 else 'short'}")
+                for m in mod.members.values():
+                    tally["frontier_members_checked"] += 1
+                    if bool(m.is_public) != doc_is_public(mod, m, real):
+                        ctx.property_failure(c.json, {"is_public deviates from the documented ladder applied to CPython's real __all__": m.path,
+                                                      "is_public": bool(m.is_public), "module": mpath, "cpython __all__": names,
+                                                      "griffe exports": None if mod.exports is None else [str(e) for e in mod.exports], "side": side})
+        exports_old = c.cpy_all[0]
+    reach_old, reach_new, reach_pairs = reference_reach(c.old, c.new, exports_old)
     view_explained, view_unknown = class_view_oracle(ctx, c, ibs, reach_pairs, tally)
     # every reported object is publicly reachable by the documented ladder
     for k, path, prm in ibs:
@@ -1856,14 +1972,14 @@ def cli_case(ctx, k, c):
         ctx.property_failure(dict(c.json, cli=True), {"find_breaking_changes did not complete": status})
 
 
-def make_history(ctx, stream):
+def make_history(ctx, stream, force_v2=False):
     """Three versions of one package: v0 -> v1 by the stream's edit script, v1 -> v2 by one or two further edits (or none)."""
     rng = ctx.rng
     c = make_case(ctx, stream)
     v2 = copy.deepcopy(c.new_spec)
     names = []
-    if rng.random() < 0.75:
-        for _ in range(rng.randint(1, 2)):
+    if force_v2 or rng.random() < 0.75:
+        for _ in range(rng.randint(1, 2) + (2 if force_v2 else 0)):
             name = rng.choice(["override", "override"] + INCOMPAT + COMPAT + COMPAT)
             m = EDITS[name](rng, v2)
             if m:
@@ -1872,17 +1988,71 @@ def make_history(ctx, stream):
             "edits": [[m["edit"] for m in c.metas], names]}
 
 
+def load_git_sources(ctx, k, h, repo, prefix, layout):
+    """`griffe.load_git("pkg", ref=...)` must load the sources of the requested reference, whatever the current directory and whatever
+    the working tree holds: every module's source is compared with `git show <ref>:<path>`.  Called from the repository root (where a
+    flat-layout `pkg/` is reachable under its name), from a subdirectory and from an unrelated directory."""
+    import griffe
+    here = os.getcwd()
+    spots = [(repo, ".", "repository root"), (repo / "docs", "..", "subdirectory"), (ctx.scratch, str(repo), "elsewhere")]
+    try:
+        for ref in ("v0", "v1"):
+            for cwd, rp, label in spots:
+                os.chdir(cwd)
+                ctx.count("load_git_runs")
+                case = {"stream": h["stream"], "old": h["versions"][int(ref[1])], "new": h["versions"][2], "edits": h["edits"], "overrides": [],
+                        "load_git": {"ref": ref, "cwd": label, "layout": layout}, "working_tree": h["versions"][2]}
+                try:
+                    tree = with_alarm(60, lambda: griffe.load_git("pkg", ref=ref, repo=rp, search_paths=[prefix or "."], resolve_aliases=True,
+                                                                  resolve_external=None))
+                except Exception as e:  # noqa: BLE001
+                    ctx.property_failure(case, {"load_git raised": repr(e)[:300]})
+                    continue
+                bad = []
+                for f in h["versions"][int(ref[1])]:
+                    mpath = f[:-3].replace("/", ".")
+                    mpath = mpath[:-9] if mpath.endswith(".__init__") else mpath
+                    if not mpath.startswith("pkg"):
+                        continue
+                    want = git(repo, "show", f"{ref}:{prefix}{f}").stdout
+                    try:
+                        got = tree.modules_collection.get_member(mpath).source
+                    except Exception as e:  # noqa: BLE001
+                        got = f"<{type(e).__name__}>"
+                    if got.rstrip("\n") != want.rstrip("\n"):
+                        bad.append([f, got[:200], want[:200]])
+                ctx.observe("load_git", f"{label} {layout} {'same' if not bad else 'DIFFERENT'}")
+                if bad:
+                    ctx.property_failure(case, {"load_git did not load the sources of the requested reference (file, loaded, git show)": bad[:3]})
+    finally:
+        os.chdir(here)
+
+
 def cli_history(ctx, k, h):
     """`griffe check` end to end on a small git history: v0 and v1 committed and tagged, v2 in the working tree; compared pairs
     (v0, v1) with -a/-b, (v1, v2) and (v0, v2) against the working tree, one of them addressed by commit hash.  Exit code and
     number of printed breakages vs find_breaking_changes on the loaded versions, and vs the exit code of the elaborated model."""
     repo = ctx.scratch / f"hist{k}"
     vs = h["versions"]
+    # layouts: flat (pkg/ at the repository root, checked by name from the root, no -s), src (src/pkg, -s src), flat with `-s .`
+    layout = ["flat", "src", "flat-s"][k % 3]
+    prefix = "src/" if layout == "src" else ""
+    sargs = {"flat": [], "src": ["-s", "src"], "flat-s": ["-s", "."]}[layout]
+
+    def put(files):
+        for top in {f.split("/")[0] for f in files} | {"pkg", "_pkg"}:
+            if (repo / prefix / top).exists():
+                shutil.rmtree(repo / prefix / top)
+        for f, text in files.items():
+            fp = repo / prefix / f
+            fp.parent.mkdir(parents=True, exist_ok=True)
+            fp.write_text(text)
+    repo.mkdir(parents=True, exist_ok=True)
+    (repo / "docs").mkdir(exist_ok=True)
+    (repo / "docs" / "index.md").write_text("docs\n")
     hashes = []
     for i in (0, 1):
-        if (repo / "src").exists():
-            shutil.rmtree(repo / "src")
-        write_tree(repo / "src", vs[i])
+        put(vs[i])
         if i == 0:
             git(repo, "init", "-q")
         git(repo, "add", "-A")
@@ -1892,8 +2062,8 @@ def cli_history(ctx, k, h):
             return
         git(repo, "tag", f"v{i}")
         hashes.append(git(repo, "rev-parse", "HEAD").stdout.strip())
-    shutil.rmtree(repo / "src")
-    write_tree(repo / "src", vs[2])
+    put(vs[2])
+    load_git_sources(ctx, k, h, repo, prefix, layout)
     env = dict(os.environ, PYTHONPATH=os.environ.get("GRIFFE_REPO", "/repo") + "/src", PYTHONHASHSEED="0", NO_COLOR="1")
     env.pop("FORCE_COLOR", None)
     loaded = []
@@ -1908,14 +2078,15 @@ def cli_history(ctx, k, h):
                   RawAbstraction(loaded[a], I, pn).root, RawAbstraction(loaded[b], I, pn).root])
     mres = ctx.model(q)
     for (a, b, args), er in zip(runs, mres):
-        p = subprocess.run([sys.executable, "-m", "griffe", "check", "pkg", *args, "-s", "src"], cwd=repo, capture_output=True, text=True,
+        p = subprocess.run([sys.executable, "-m", "griffe", "check", "pkg", *args, *sargs], cwd=repo, capture_output=True, text=True,
                            timeout=120, env=env)
         status, ibs = impl_diff(loaded[a], loaded[b])
-        case = {"stream": h["stream"], "old": vs[a], "new": vs[b], "edits": h["edits"], "overrides": [], "cli": True, "args": args}
+        case = {"stream": h["stream"], "old": vs[a], "new": vs[b], "edits": h["edits"], "overrides": [], "cli": True, "args": args + sargs,
+                "layout": layout, "cwd": "repository root", "working_tree": vs[2]}
         ctx.count("cli_runs")
         ctx.count("cli_history_runs")
         reported = [l for l in p.stderr.split("\n") if l.strip() and ": " in l and not l.startswith(("Traceback", " ", "\t"))]
-        ctx.observe("cli_history", f"v{a}->v{b} rc={p.returncode} api={'nonempty' if ibs else 'empty'}/{status} {'facade' if h['stream'].startswith('facade') else 'single'}")
+        ctx.observe("cli_history", f"v{a}->v{b} rc={p.returncode} api={'nonempty' if ibs else 'empty'}/{status} {'facade' if h['stream'].startswith('facade') else 'single'} {layout}")
         if status != "ok":
             ctx.property_failure(case, {"find_breaking_changes did not complete": status})
             continue
@@ -1937,11 +2108,16 @@ def make_case(ctx, stream):
     facade = stream.startswith("facade:")
     if facade:
         stream = stream.split(":", 1)[1]
-    old = gen_pkg(rng, stream, facade=facade)
+    old = gen_composed_pkg(rng) if stream == "composed-all" else gen_pkg(rng, stream, facade=facade)
     new = copy.deepcopy(old)
     metas = []
     if stream == "identical" or stream == "cyclic" and rng.random() < 0.5:
         pass
+    elif stream == "composed-all":
+        for k in range(rng.choice([1, 1, 2])):
+            m = EDITS[rng.choice(COMPOSED_EDITS)](rng, new)
+            if m:
+                metas += m if isinstance(m, list) else [m]
     elif stream == "class-combo":
         metas = e_class_combo(rng, new) or []
         if rng.random() < 0.3:
@@ -1982,7 +2158,7 @@ def make_case(ctx, stream):
 
 STREAMS = ["identical", "compatible", "compatible", "incompatible", "incompatible", "incompatible", "incompatible+compatible", "mixed", "mixed",
            "empty-all", "cyclic", "class-combo", "incompatible-multi", "facade:incompatible", "facade:compatible", "facade:mixed",
-           "hierarchy", "hierarchy", "facade:hierarchy"]
+           "hierarchy", "hierarchy", "facade:hierarchy", "composed-all", "composed-all"]
 
 
 def explore(ctx):
@@ -2012,14 +2188,17 @@ def explore(ctx):
         ctx.count(k, v)
     # the direct checks must not be vacuous
     for key in ("compatible_scripts", "public_incompatible_reported", "private_only_scripts", "unresolvable_survived", "cyclic_survived",
-                "edit_expectations_in_multi_edit_scripts", "class_view_expectations_overridden_inherited"):
+                "edit_expectations_in_multi_edit_scripts", "class_view_expectations_overridden_inherited", "frontier_members_checked"):
         if not tally[key]:
             ctx.tie_failure("harness", f"degenerate generation: no case exercised `{key}`", dict(tally))
     # CLI exit code
     # (half of the runs on the facade layout pkg -> _pkg with breakages inside re-exported objects; both working-tree and -b modes)
     nhist = ctx.budget(3, 14)
     for k in range(nhist):
-        cli_history(ctx, k, make_history(ctx, ["facade:hierarchy", "hierarchy", "facade:incompatible", "mixed", "facade:compatible", "cyclic", "identical"][k % 7]))
+        # flat-layout histories (k % 3 == 0) always have an incompatible v0 -> v1 script and a working tree that differs from both tags
+        stream = ["facade:incompatible", "hierarchy", "facade:hierarchy", "incompatible", "mixed", "facade:compatible", "incompatible-multi", "cyclic",
+                  "identical"][k % 9]
+        cli_history(ctx, k, make_history(ctx, stream, force_v2=(k % 3 == 0)))
     ncli = ctx.budget(4, 24)
     ok = [c for c in cases if not c.overrides and getattr(c, "result", ("", []))[0] == "ok"]
     broken = lambda c: bool(c.result[1])
